@@ -2,7 +2,6 @@
 from __future__ import annotations
 
 from ..core import Result, register
-from ..driver import check_tasks_order
 from ..manager_rules import check_collapse, check_epoch, check_merge_values
 from .c02 import check_collapse_targets
 
@@ -23,7 +22,6 @@ def run(repo, tier) -> Result:
     check_collapse("C03", res, repo, want=("R-INTERVAL", "R-CONSERVE"))
     check_collapse_targets("C03", res, repo)
     check_epoch("C03", res, repo)
-    check_tasks_order("C03", res, repo)
     # Hexital.candles(timeframe): a new timeframe manager must collapse its own deep copy of the base candles
     from .c08 import check_binding
 
